@@ -1,10 +1,14 @@
 import DtnVerif.Drv.Basic
+import DtnVerif.Drv.Tcpcl
+import DtnVerif.Drv.TcpclEp
 namespace DtnVerif
 namespace Drv
 
 /-- Every area registers its handler here (one line per area). -/
 def handlers : List Handler := [
-  basicHandler
+  basicHandler,
+  tcpclCodecHandler,
+  tcpclEpHandler
 ]
 
 end Drv
